@@ -39,7 +39,7 @@ func init() {
 }
 
 func genC18(ctx *Ctx) {
-	names := []string{"a", "A", "b", "Name", "NAME", "name", "x1", "é", "É", "q id", "ı"}
+	names := []string{"a", "A", "b", "Name", "NAME", "name", "x1", "é", "É", "q id", "ı", "I", "i", "maſs", "MASS", "mass", "λογος", "ΛΟΓΟΣ", "λογοσ"}
 	for i := 0; i < ctx.N; i++ {
 		n := 1 + ctx.Rnd.Intn(14)
 		var ops sx.List
@@ -263,7 +263,7 @@ func runC18Collection(ops sx.List, fn bool) (sx.SX, string) {
 	var ref []ent // a plain slice: the list model of the property
 	find := func(n string) int {
 		for i, e := range ref {
-			if strings.EqualFold(e.name, n) && strings.ToUpper(e.name) == strings.ToUpper(n) {
+			if strings.ToUpper(e.name) == strings.ToUpper(n) { // the same name ignoring case = equal upper-case forms (the model's notion, fed by the host's ToUpper)
 				return i
 			}
 		}
